@@ -11,6 +11,7 @@ import (
 	"errors"
 	"fmt"
 	"io"
+	"math"
 	"math/rand"
 	"net"
 	"runtime"
@@ -354,6 +355,10 @@ func (c *Conn) nextFrame() (int, MessageType, []byte, bool, bool, bool, error) {
 		ml := 0
 		if c.message != nil {
 			ml = len(*c.message)
+		}
+		// bodyLen is any 63-bit value the peer chose: the sum below must not wrap.
+		if bodyLen > math.MaxInt64-int64(ml) {
+			return 0, 0, nil, false, false, false, ErrMessageTooLarge
 		}
 		if c.isMessageTooLarge(ml + int(bodyLen)) {
 			return 0, 0, nil, false, false, false, ErrMessageTooLarge
